@@ -10,12 +10,12 @@ package oauth2
 //@   ensures[C17] no_secret_leak: secrets_clean
 //@   let provider = str_lower(filepath_base(r.URL.Path))
 //@   invariant loop#1 ctx_user_kept: ctxuser(r) == user
-//@   invariant loop#1 redirect_local: redirect == o.Config.Paths.OAuth2LoginOK || !offsite(redirect)
+//@   invariant loop#1 redirect_local: redirect == o.Config.Paths.OAuth2LoginOK || !offsite_cleaned(redirect)
 //@   -- C15: the redirect parameter carried through the OAuth2 round trip never takes the
 //@   -- browser off-site: the target is the configured page or a value no browser resolves
 //@   -- to another origin (plus pass-through query)
 //@   ensures[C15] oauth_passthrough: each Redirect(?ro) => before Store.SaveOAuth2(_) ==>
-//@       (prefixof(o.Config.Paths.OAuth2LoginOK, ro.RedirectPath) || !offsite(ro.RedirectPath))
+//@       (prefixof(o.Config.Paths.OAuth2LoginOK, ro.RedirectPath) || !offsite_cleaned(ro.RedirectPath))
 //@   -- C14: nothing happens unless this browser's session holds a state and the
 //@   -- callback carries exactly that value
 //@   ensures[C14,C01] state_guard:
